@@ -86,9 +86,10 @@ func (iq *IndexQuery) FetchCollection(db *badger.DB) ([]string, error) {
 	offset := iq.Offset
 	limit := iq.Limit
 
-	// Quick exit if we are fetching zero items
+	// Quick exit if we are fetching zero items. The result is an empty, non-nil
+	// slice, so that it is served as an empty collection and not as null.
 	if limit == 0 {
-		return nil, nil
+		return []string{}, nil
 	}
 
 	// Set "unlimited" limit to max int value
